@@ -26,7 +26,22 @@ fn val(b: bool) -> RV {
         _ => RV::Boolean(b),
     }
 }
+/// tags beyond the two truth values: W1 / W2 are the strings "a b" and "a  b" (they differ only in whitespace INSIDE the literal)
+fn val_tag(tag: &str) -> RV {
+    match tag {
+        "W1" => RV::String("a b".to_string()),
+        "W2" => RV::String("a  b".to_string()),
+        _ => val(tag == "T"),
+    }
+}
+fn lit_tag(tag: &str) -> String {
+    match val_tag(tag) {
+        RV::String(s) => format!("\"{}\"", s),
+        _ => if tag == "T" { "true" } else { "false" }.to_string(),
+    }
+}
 /// the literal as it is written in a query string
+#[allow(dead_code)]
 fn lit(b: bool) -> String {
     match val(b) {
         RV::String(s) => format!("\"{}\"", s),
@@ -62,6 +77,9 @@ pub fn mk_facts_s(m: &HashMap<String, String>) -> Facts {
     for k in keys {
         if m[k] == "S" {
             f.set(&format!("{}.v", k), RV::String("true".to_string()));
+        }
+        if m[k] == "W1" || m[k] == "W2" {
+            f.set(&format!("{}.v", k), val_tag(&m[k]));
         }
     }
     f
@@ -104,7 +122,7 @@ pub fn run_query(e: &mut BackwardEngine, facts: &mut Facts, gf: &str, gv: &str) 
 
 pub fn run_query_neg(e: &mut BackwardEngine, facts: &mut Facts, gf: &str, gv: &str, neg: bool) -> (String, bool, bool) {
     let before = facts.get_all_facts();
-    let q = format!("{}{}.v == {}", if neg { "NOT " } else { "" }, gf, lit(gv == "T"));
+    let q = format!("{}{}.v == {}", if neg { "NOT " } else { "" }, gf, lit_tag(gv));
     let r = catch_unwind(AssertUnwindSafe(|| e.query(&q, facts)));
     let verdict = match r {
         Ok(Ok(res)) => if res.provable { "yes" } else { "no" }.to_string(),
@@ -112,7 +130,7 @@ pub fn run_query_neg(e: &mut BackwardEngine, facts: &mut Facts, gf: &str, gv: &s
         Err(_) => "panic".to_string(),
     };
     let after = facts.get_all_facts();
-    let holds = after.get(&format!("{}.v", gf)) == Some(&val(gv == "T"));
+    let holds = after.get(&format!("{}.v", gf)) == Some(&val_tag(gv));
     (verdict, holds, before == after)
 }
 
@@ -154,6 +172,7 @@ impl Model for BW {
                     "T" => self.pfacts.set(&format!("{}.v", f), val(true)),
                     "F" => self.pfacts.set(&format!("{}.v", f), val(false)),
                     "S" => self.pfacts.set(&format!("{}.v", f), RV::String("true".to_string())),
+                    "W1" | "W2" => self.pfacts.set(&format!("{}.v", f), val_tag(v)),
                     _ => {
                         self.pfacts.remove(&format!("{}.v", f));
                     }
@@ -215,7 +234,7 @@ impl Model for BW {
                 let mut fresh = mk_engine(&self.rules, depth, strat, maxsol, true);
                 let (fv, _, _) = run_query_neg(&mut fresh, &mut copy, gf, gv, neg);
                 let pv = if with_rete {
-                    let q = format!("{}.v == {}", gf, lit(gv == "T"));
+                    let q = format!("{}.v == {}", gf, lit_tag(gv));
                     let eng = self.rete.clone();
                     let pe = &mut self.pengine.as_mut().unwrap().0;
                     let pf = &mut self.pfacts;
@@ -246,7 +265,7 @@ impl Model for BW {
                 if let Some((pe, _)) = self.pengine.as_mut() {
                     let (gf, gv) = (l["gf"].as_str().unwrap(), l["gv"].as_str().unwrap());
                     let q = if l["form"].as_str() == Some("malformed") { format!("count(?x) WHERE {}.v ==", gf) }
-                            else { format!("count(?x) WHERE {}.v == {}", gf, lit(gv == "T")) };
+                            else { format!("count(?x) WHERE {}.v == {}", gf, lit_tag(gv)) };
                     let mut scratch = mk_facts_s(&self.facts);
                     let _ = catch_unwind(AssertUnwindSafe(|| pe.query_aggregate(&q, &mut scratch)));
                 }
